@@ -4,8 +4,11 @@ EXTENDS Shorten, Json
 V12 == {1, 2}
 TinyVals == {-3, 2}
 TinyCmds == {0, 1, 2, 3, 5, 6, 8}
+TinyCmdsNoBs == {0, 1, 2, 3, 6, 8}   \* (quick tier: block-size changes are explored by Shorten_bs.cfg)
 \* two channels with a shift that changes between the channel blocks of one frame
 Tiny2Cmds == {0, 1, 6, 8}
+\* block sizes that shrink and grow back (up to the size the header announced)
+BsCmds == {1, 5}
 LpcVals == {-2, 3}
 LpcCoefs == {-8, 20}
 LpcCmds == {7, 1}
